@@ -56,7 +56,7 @@ def impl_feed(u, chunk, bound=None):
     n = 0
     try:
         u.feed(chunk)
-        cap = (len(u.buf) // 5 + 3) if bound is None else bound
+        cap = (compat.unconsumed(u) // 5 + 3) if bound is None else bound
         for op, data in u:
             frames.append((op, bytes(data)))
             n += 1
@@ -70,7 +70,7 @@ def impl_feed(u, chunk, bound=None):
         err = 'unknownOp' if 'opcode' in s.lower() else ('tooSmall' if 'small' in s.lower() else 'protocol')
     except Exception as e:  # anything else is not the library's protocol exception
         err = 'EXC:' + type(e).__name__
-    return frames, len(u.buf), err
+    return frames, compat.unconsumed(u), err
 
 
 def fmt_feed(frames, restlen, err):
@@ -372,8 +372,12 @@ def run_chunked(res, drv, frames, tail, chunks, script, check_prompt=True):
                 return
     if got != [(op, bytes(b)) for op, b in frames]:
         res.violation('C06', 'frames', 'decoded frame sequence differs from the one sent', script)
-    elif bytes(u.buf) != tail:
-        res.violation('C06', 'tail', 'buffer after feeding is %r, expected the incomplete tail %r' % (bytes(u.buf)[:40], tail[:40]), script)
+    else:
+        # "afterwards only the bytes of a trailing incomplete frame remain buffered": what the decoder really holds
+        # (all its bytes-like attributes, whatever its internal layout) is the tail and nothing else
+        held = compat.held_buffers(u)
+        if compat.footprint(u) != len(tail) or (len(held) == 1 and bytes(held[0]) != tail):
+            res.violation('C06', 'tail', 'the decoder holds %d byte(s) after feeding (%r), expected exactly the incomplete tail %r' % (compat.footprint(u), [bytes(h)[:40] for h in held][:2], tail[:40]), script)
     if drv is not None:
         outs = drv.ask_many(lines)[1:]
         if outs != impl_lines:
@@ -524,7 +528,6 @@ def run_arbitrary(res, drv, chunks, script):
     total = b''
     consumed = 0
     for ch in chunks:
-        before = len(u.buf)
         fr, rest, err = impl_feed(u, ch)
         total += ch
         impl_lines.append(fmt_feed(fr, rest, err))
@@ -550,6 +553,9 @@ def run_arbitrary(res, drv, chunks, script):
                 return
             if rest >= 5 + P.MAXBUF:
                 res.violation('C07', 'bounded', 'buffer holds %d bytes after an error-free drain' % rest, script)
+                return
+            if compat.footprint(u) >= 5 + P.MAXBUF + len(ch):
+                res.violation('C07', 'bounded', 'the decoder holds %d bytes after an error-free drain: more than one maximal frame plus the chunk' % compat.footprint(u), script)
                 return
             # a complete bad header must have been rejected
             if rest >= 5:
